@@ -9,8 +9,14 @@
                          keypoints / descriptors / global_features, matches, points3d; each an [option]
      wf O d              boolean well-formedness (Model/MCodec.v): strings comma-free, newline-free, trimmed,
                          not starting with '#'; floats finite; keys unique; references resolved; pose groups
-                         whole or absent; parts the format can represent (sensors present, ...)
-     save / load         models of kapture_to_dir / kapture_from_dir (repaired code); [tree] = the files
+                         whole or absent; parts the format can represent (sensors present, ...);
+                         AND the image paths of match pairs are in os.path.normpath form ([pair_normalised]).
+                         That last condition is NOT implied by the property's quantifier: for match pairs on
+                         other spellings (./a.jpg, a//b.jpg, x/../a.jpg) the code as it is loses the pair on
+                         reload - a KNOWN FINDING of C01 (known_findings.txt), refuted below
+                         ([C01_asis_matches_refuted]); [wf_loose] is [wf] without that condition.
+     save / load         models of kapture_to_dir / kapture_from_dir, the code AS IT IS; [tree] = the files
+                         ([load_ideal_matches]: the same with match pairs kept in their saved spelling)
      canon O d           d with (i) each table's rows in the order the writer sorts them, (ii) a missing
                          sensor name replaced by "", (iii) point coordinates passed through '%.10f'
      ds_equiv            tables and the point cloud equal; image sets and match sets have the same members *)
@@ -170,3 +176,26 @@ Proof.
   - exists (only_sensors_and (Some (3%nat, [])) None). repeat split; vm_compute; reflexivity.
   - exists (only_sensors_and None (Some [])). repeat split; vm_compute; reflexivity.
 Qed.
+
+(* --- KNOWN FINDING (not repaired): the code as it is re-derives match pair names from the normalised match file
+       paths and filters them against the raw image names, so a pair on an image path that is not in normpath
+       form is lost on reload.  Witness: two images "./a.jpg", "b.jpg" and one match pair between them; the
+       dataset is [wf_loose] but not [wf]; [load] returns an empty match set, the ideal loader returns the pair. *)
+Definition loaded_matches {O} (r : result (dataset O)) : option (option (list (txt * list (txt * txt)))) :=
+  match r with Ok d' => Some (d_matches O d') | Err => None end.
+Definition nonnorm_data : dataset toy :=
+  {| d_tab := fun f => match f with
+                       | FSensors => Some [[S "cam"; CNone; S "camera"; S "UNKNOWN_CAMERA"; S "640"; S "480"]]
+                       | FRec RCamera => Some [[CInt 0; S "cam"; S "./a.jpg"]; [CInt 1; S "cam"; S "b.jpg"]]
+                       | _ => None
+                       end;
+     d_feat := fun _ => None;
+     d_matches := Some [(t_of "kp", [(t_of "./a.jpg", t_of "b.jpg")])];
+     d_p3d := None |}.
+
+Lemma C01_asis_matches_refuted :
+  wf_loose toy nonnorm_data = true /\ wf toy nonnorm_data = false /\
+  loaded_matches (load toy (save toy nonnorm_data)) = Some (Some [(t_of "kp", [])]) /\
+  loaded_matches (load_ideal_matches toy (save toy nonnorm_data)) = Some (d_matches toy nonnorm_data) /\
+  d_matches toy (canon_asis toy nonnorm_data) = Some [(t_of "kp", [])].
+Proof. repeat split; vm_compute; reflexivity. Qed.
